@@ -162,6 +162,18 @@ Definition wait_cycles (nesting : list edge) (waits : list wait_site) (covers : 
 Definition show_wait (w : wait_site) : string :=
   let '(fn, held, g, pos) := w in pos ++ " " ++ fn ++ " waits for " ++ g ++ " holding {" ++ String.concat "," held ++ "}".
 
+(* the table still contains the waits the property is about: (group, must the table list code units it covers?) *)
+Definition expected_waits : list (string * bool) :=
+  [("wg:ipfscluster.Cluster.wg", true);      (* Cluster.Shutdown collects the goroutines of NewCluster / run / Join *)
+   ("wg:stateless.Tracker.wg", false)].      (* Tracker.Shutdown waits for a WaitGroup nothing is registered in *)
+Definition wait_covered_okb (waits : list wait_site) (members : list (string * string * string)) (x : string * bool) : bool :=
+  existsb (fun w => String.eqb (snd (fst w)) (fst x)) waits &&
+  (negb (snd x) || existsb (fun m => String.eqb (fst (fst m)) (fst x)) members).
+Definition wait_coverage_okb waits members : bool := forallb (wait_covered_okb waits members) expected_waits.
+Definition wait_uncovered waits members : list string :=
+  map (fun x : string * bool => fst x ++ ": no Wait() on it in the table" ++ (if snd x then ", or no code unit it covers" else ""))
+      (filter (fun x => negb (wait_covered_okb waits members x)) expected_waits).
+
 (* ---- accessors: all reads/writes a value-returning function makes under one guard share one critical section ---- *)
 Definition guard_sec (a : access) : N :=
   match guard_of (a_ty a) (a_field a) with
